@@ -80,3 +80,34 @@ pub(crate) fn reader_point(site: &'static str) {
         }
     }
 }
+
+thread_local! {
+    static LOCK_EVENT: RefCell<Option<Box<dyn FnMut(&'static str)>>> = RefCell::new(None);
+}
+
+/// Installs (or removes) a callback which is called by the current thread right in front of
+/// every acquisition of the write lock of the matched blocks (the lock which serializes
+/// `set_scripts`, the filter batches, the block arrivals and the fork rollback), with the name
+/// of the site. The callback may block: a thread paused there has done whatever it does BEFORE
+/// it enters its critical section.
+pub(crate) fn set_lock_event(callback: Option<Box<dyn FnMut(&'static str)>>) {
+    LOCK_EVENT.with(|cell| *cell.borrow_mut() = callback);
+}
+
+/// Called in front of the acquisitions of the matched blocks lock.
+pub(crate) fn lock_event(site: &'static str) {
+    let callback = LOCK_EVENT.with(|cell| cell.borrow_mut().take());
+    if let Some(mut callback) = callback {
+        let result =
+            std::panic::catch_unwind(std::panic::AssertUnwindSafe(|| callback(site)));
+        LOCK_EVENT.with(|cell| {
+            let mut slot = cell.borrow_mut();
+            if slot.is_none() {
+                *slot = Some(callback);
+            }
+        });
+        if let Err(payload) = result {
+            std::panic::resume_unwind(payload);
+        }
+    }
+}
